@@ -61,6 +61,11 @@ for _pid, _l in {"C01": [("scale-msgs", 5), ("reuse-after-prune", 32)], "C02": [
     PROPS[_pid]["streams"] = PROPS[_pid]["streams"] + _l
 for _pid in ("C01", "C02", "C03", "C07", "C08", "C09", "C14"):
     PROPS[_pid]["streams"] = PROPS[_pid]["streams"] + [("pipeline", 32)]
+for _pid in ("C01", "C02", "C06", "C08", "C11", "C13", "C14", "C17"):
+    PROPS[_pid]["streams"] = PROPS[_pid]["streams"] + [("lingering", 32)]
+PROPS["C01"]["streams"] = PROPS["C01"]["streams"] + [("late-sweep", 32)]
+for _pid in ("C03", "C04", "C07"):
+    PROPS[_pid]["streams"] = PROPS[_pid]["streams"] + [("warm-order", 32)]
 import metamorphic as MM
 for _pid in MM.CHECKS:
     PROPS[_pid]["extra"] = MM.extra(_pid)
